@@ -33,7 +33,7 @@ def mk(c, stoch=True):
     Q.set_internal_sigmoid("hard")
     return Q.quantized_sigmoid(c["bits"], symmetric=bool(c["sym"]), use_stochastic_rounding=stoch)
   if f == "po2":
-    return Q.quantized_po2(c["bits"], max_value=c["mv"], use_stochastic_rounding=stoch)
+    return Q.quantized_po2(c["bits"], max_value=c["mv"], use_stochastic_rounding=stoch, quadratic_approximation=bool(c.get("quad")))
   raise ValueError(f)
 
 
@@ -56,18 +56,20 @@ def configs(tier, rng):
     allc.append(dict(fam="qsigmoid", bits=bits, sym=sym, mode="hard"))
   for bits, mv in itertools.product([3, 4, 5, 6], [None, 2.0, 8.0]):
     allc.append(dict(fam="po2", bits=bits, mv=mv))
+    allc.append(dict(fam="po2", bits=bits, mv=mv, quad=True))     # exponent of sqrt(x) rounded, then doubled: codes 4^k
   if tier == "thorough":
     return allc
   leaky = [i for i, c in enumerate(allc) if c["fam"] == "qrelu" and c.get("slope") is not None]
-  rest = [i for i in range(len(allc)) if i not in leaky]
-  idx = list(rng.choice(rest, size=44, replace=False)) + list(rng.choice(leaky, size=8, replace=False))
+  quad = [i for i, c in enumerate(allc) if c.get("quad")]
+  rest = [i for i in range(len(allc)) if i not in leaky and i not in quad]
+  idx = list(rng.choice(rest, size=44, replace=False)) + list(rng.choice(leaky, size=8, replace=False)) + list(rng.choice(quad, size=4, replace=False))
   return [allc[i] for i in sorted(idx)]
 
 
 def inputs(c, rng):
   if c["fam"] == "po2":
-    return np.asarray(list(np.exp(rng.uniform(-5, 4, size=30)) * rng.choice([-1, 1], size=30)) + [1.0, 2.0, -0.5, 3.0, 0.0, 1e-9],
-                      dtype=np.float32)
+    return np.asarray(list(np.exp(rng.uniform(-5, 4, size=30)) * rng.choice([-1, 1], size=30)) + [1.0, 2.0, -0.5, 3.0, 0.0, 1e-9] +
+                      ([4.0, -0.25, 1.0 / 64, 13.3, 100.0, 1.0 / 300] if c.get("quad") else []), dtype=np.float32)
   se, lo, hi = fixed_k.fmt_of(c)
   step = 2.0 ** se
   scale = 1.0 if c["fam"] not in ("qtanh", "qsigmoid") else 1.0
@@ -162,7 +164,7 @@ def main():
       elif c["fam"] == "po2":
         from fractions import Fraction
         mv = "None" if c["mv"] is None else f"(Some {vlib.ratlit(Fraction(c['mv']))})"
-        fn = f"chk_po2_stoch (P2 {c['bits']} {mv} LRnd)"
+        fn = f"{'chk_po2_stoch_quad' if c.get('quad') else 'chk_po2_stoch'} (P2 {c['bits']} {mv} LRnd)"
       else:
         fn = None
       if fn:
